@@ -751,9 +751,13 @@ func (r *Runner) hookHandler(c *HookCall) HookReply {
 			prog = AsMap(p)
 		}
 		reply = r.srv.RunHookProg(prog, c.Req)
+		// a hook that answers "not modified" whenever the caller claims to hold a version of the answer
+		if alt := AsMap(prog["ifNoneMatch"]); len(alt) > 0 && c.Header.Get("If-None-Match") != "" {
+			reply = HookReply{Status: AsInt(alt["code"]), Header: map[string]string{"ETag": c.Header.Get("If-None-Match")}}
+		}
 	}
 	ev := Obj{"ev": "Hook", "a": actor, "hook": hook, "code": reply.Status, "req": ProjectHookRequest(c.Req),
-		"resp": ProjectHookResponse(reply.Body), "inm": c.Header.Get("If-None-Match")}
+		"resp": ProjectHookResponse(reply.Body), "inm": c.Header.Get("If-None-Match"), "etag": reply.Header["ETag"]}
 	if hook == "customize" {
 		ev["req"] = Obj{"finalizing": false, "parent": Project(AsMap(c.Req["parent"])), "children": Obj{}, "related": Obj{}, "kindOfReq": "customize"}
 	}
